@@ -90,6 +90,10 @@ CLAIMS["C12"] = dict(ref="§5 C12", tech="TLA+ model of the IDT with the archite
     text="TLC explores all setter sequences on a restricted vector domain and checks that every setter changes only its field of its gate and that gates encode/decode per the architectural layout; on the real crate, for all 256 vectors and every access path, handler installation and random option-setter sequences are recorded with the raw 16-byte gates that changed and TLC compares them with the encoding of the specification's gate (address, current CS, present, interrupt gate, DPL 0, IST 0; setters change only their field; handler_addr reads back); Index<u8> offset = 16v or refusal exactly on reserved/error-code/diverging vectors; every RangeBounds form gives the slice at byte 16*lower of length upper-lower or refuses below vector 32; untouched/reset tables are all non-present interrupt gates; lidt gets the table address and limit 4095.",
     note=TB_CPU)
 
+CLAIMS["C13"] = dict(ref="§5 C13", tech="TLA+ model of the IDT (Idt.tla: GeneralTargets, gate decoding) and trace validation (Trace_Idt.tla SghOK/DeliverOK) of set_general_handler! on run-time ranges and of simulated hardware interrupt delivery into every installed stub of the real crate, plus iretq",
+    text="For every tested range TLC checks on the raw table bytes that exactly the non-reserved vectors of the range became present interrupt gates with the current CS, DPL 0, IST 0, pairwise distinct canonical stub addresses, and that all other gates are byte-identical; each installed stub is then entered like the CPU would (frame and error code pushed, jump to the decoded gate offset) and TLC checks: general handler called exactly once with index v, the pushed frame contents, an error code exactly on the error-code vectors with the pushed value, and for returning vectors execution resumes at the interrupted rip/rsp/rflags; iretq on a frame value lands at exactly its rip/rsp/rflags.",
+    note=TB_CPU + " Frame contents are restricted to what ring 3 can return to (user CS/SS, IF=1, IOPL 0); each delivery runs in a forked child so that a crashing stub is data.")
+
 NA_DEFAULT = "check under construction in this session (planned in DESIGN.md section 5); not yet claimed"
 
 m = {
